@@ -134,7 +134,18 @@ def validation_rows(tier, seed):
     strategy = BaseStrategy(market_filter={}, name="V")
     rows = []
 
-    def client_for(cur, validate):
+    def client_for(cur, validate, live=False):
+        if live:
+            # the live client reads the account currency from the exchange's account details
+            from unittest import mock
+            from betfairlightweight.resources import AccountDetails
+            bc = mock.Mock()
+            bc.lightweight = False
+            bc.account.get_account_details.return_value = AccountDetails(**{"currencyCode": cur, "discountRate": 0.0})
+            c = clients.BetfairClient(bc, min_bet_validation=validate)
+            c.update_account_details()
+            return c
+
         class C(clients.SimulatedClient):
             CURRENCY_CODE = cur
         c = C(username="c", min_bet_validation=validate)
@@ -144,13 +155,13 @@ def validation_rows(tier, seed):
     prices_off = [1.0, 1.005, 2.01, 3.01, 4.05, 6.1, 10.2, 20.5, 31.0, 51.0, 105.0, 1001.0, 0.0]
     finest_on, finest_off = [2.01, 3.33, 999.99], [2.005, 1000.01]
     sizes = [0.0, -1.0, 0.001, 0.005, 0.01, 0.5, 0.99, 0.999, 1.0, 1.001, 1.01, 2.0, 2.5, 5.0, 10.0, 9.99, 19.99, 20.0, 150.0, 4000.0, 2.345]
-    curs = ["GBP", "EUR", "USD", "HKD", "AUD", "DKK", "HUF"] if tier == "thorough" else ["GBP", "USD", "HKD"]
-    for cur in curs:
+    curs = ["GBP", "EUR", "USD", "HKD", "AUD", "DKK", "HUF"] if tier == "thorough" else ["GBP", "EUR", "HKD"]
+    for cur, live in [(c, l) for c in curs for l in (False, True)]:
         cp = currency_parameters[cur]
         acct_sizes = sorted(set(sizes + [cp["min_bet_size"], cp["min_bet_size"] - 0.01, cp["min_bet_size"] - 0.001, cp["min_bet_size"] + 0.01, cp["min_bsp_liability"], cp["min_bsp_liability"] - 0.01, cp["min_bsp_liability"] + 0.01,
                                       cp["min_bet_payout"] / 2.0, cp["min_bet_payout"] / 4.0, cp["min_bet_payout"] / 5.0]))
         for validate in (True, False):
-            client = client_for(cur, validate)
+            client = client_for(cur, validate, live)
             acct = {"minsize": cp["min_bet_size"], "minpayout": cp["min_bet_payout"], "minbsp": cp["min_bsp_liability"], "validate": validate}
 
             def judge(order, o):
